@@ -234,7 +234,7 @@ def tlc_runs(tier, rnd):
             'MC_Rounding', 'Rounding_mc.cfg', workers=4, coverage=True, timeout=600)
         return
     d = tlc.new_scratch('rounding')
-    offs = sorted({0, 1237, rnd.randrange(1, 4999), rnd.randrange(1, 4999)})
+    offs = sorted({0, 1237, rnd.randrange(1, 9973), rnd.randrange(1, 9973)})
     big = open(os.path.join(tlc.SPEC, 'Rounding_big.cfg')).read()
     jobs = []
     for ph in 'RMC':
@@ -468,10 +468,10 @@ def run(tier, seed):
     F = load_functions()
     J = Judge(v)
     quick = tier == 'quick'
-    quota = {('R', c): (110 if quick else 1100) for c in CLASSES_R}
-    quota.update({('R', 'tie'): 220 if quick else 2200,
-                  ('M', '*'): 100 if quick else 1000,
-                  ('C', '*'): 70 if quick else 700})
+    quota = {('R', c): (80 if quick else 700) for c in CLASSES_R}
+    quota.update({('R', 'tie'): 160 if quick else 1400,
+                  ('M', '*'): 70 if quick else 600,
+                  ('C', '*'): 50 if quick else 400})
     drv = Driver(v, J, F, rnd, quota)
 
     coverage = {a: 0 for a in ACTIONS}
